@@ -28,6 +28,10 @@ import (
 //   facts                                  -> minbatch=<n> batched=<ids> ids=<ed>,<secp>,<bls>
 //   block w=<workers> <item>*              item = e|s|b (ed25519|secp256r1|bls) + 1 valid | 0 corrupted signature | 2 other message signed
 //        -> <ok|fail|hang> direct=<n> early=<batch sizes handed out by Add> done=<#closures from Done>:<items not handed out early>
+//   overlap w=<workers> <b-before-release|b-after-a> A <item>* B <item>*
+//        two signature jobs on the SAME worker pool: job A (its last item, marked by a trailing g, of an
+//        unbatched type, blocks in Verify until released) is still running when job B is created; B is
+//        submitted before A is released, or after A completed        -> A=<ok|fail|hang> B=<ok|fail|hang>
 // The block is pushed through the code path of Processor.verifySignatures / waitSignatures:
 // workers.NewJob, chain.NewAuthBatch(auth.DefaultEngines()), Add per tx, go Done, job.Wait.
 
@@ -77,6 +81,195 @@ func (e *c16Engines) GetAuthBatchVerifier(t uint8, cores int, count int) (chain.
 	e.recs[t] = r
 	e.mu.Unlock()
 	return r, true
+}
+
+// c16Wrap delegates to a real auth; Verify optionally blocks on a gate and reports its result.
+type c16Wrap struct {
+	chain.Auth
+	gate   chan struct{}
+	onDone func(error)
+}
+
+func (a *c16Wrap) Verify(ctx context.Context, msg []byte) error {
+	if a.gate != nil {
+		<-a.gate
+	}
+	err := a.Auth.Verify(ctx, msg)
+	if a.onDone != nil {
+		a.onDone(err)
+	}
+	return err
+}
+
+type c16Job struct {
+	txs  []*chain.Transaction
+	job  workers.Job
+	bv   *chain.AuthBatch
+	want bool
+}
+
+func c16WaitJob(j workers.Job, to time.Duration) string {
+	res := make(chan error, 1)
+	go func() { res <- j.Wait() }()
+	select {
+	case err := <-res:
+		if err == nil {
+			return "ok"
+		}
+		return "fail"
+	case <-time.After(to):
+		return "hang"
+	}
+}
+
+// c16Overlap runs two signature jobs on one pool (see the protocol comment).
+func c16Overlap(r *verifh.Run, t *testing.T, signer *c16Signer, l string, f []string) string {
+	if len(f) < 5 || !strings.HasPrefix(f[1], "w=") || f[3] != "A" {
+		return "bad-op"
+	}
+	w, err := strconv.Atoi(f[1][2:])
+	mode := f[2]
+	if err != nil || w < 1 || w > 64 || (mode != "b-before-release" && mode != "b-after-a") {
+		return "bad-op"
+	}
+	var aTok, bTok []string
+	seenB := false
+	for _, it := range f[4:] {
+		if it == "B" && !seenB {
+			seenB = true
+			continue
+		}
+		if seenB {
+			bTok = append(bTok, it)
+		} else {
+			aTok = append(aTok, it)
+		}
+	}
+	if !seenB {
+		return "bad-op"
+	}
+	okTok := func(it string, allowGate bool) bool {
+		if allowGate && len(it) == 3 && it[2] == 'g' && it[0] != 'e' {
+			it = it[:2]
+		}
+		return len(it) == 2 && strings.ContainsRune("esb", rune(it[0])) && strings.ContainsRune("012", rune(it[1]))
+	}
+	for _, it := range aTok {
+		if !okTok(it, true) {
+			return "bad-op"
+		}
+	}
+	for _, it := range bTok {
+		if !okTok(it, false) {
+			return "bad-op"
+		}
+	}
+	gate := make(chan struct{})
+	var mu sync.Mutex
+	verified, sawInvalid, expect := 0, false, 0
+	build := func(toks []string, off int, wrap bool) *c16Job {
+		j := &c16Job{want: true}
+		for i, it := range toks {
+			tx := signer.tx(it[0], off+i, it[1])
+			if tx.VerifyAuth(context.Background()) != nil {
+				j.want = false
+			}
+			if wrap && it[0] != 'e' {
+				wa := &c16Wrap{Auth: tx.Auth, onDone: func(err error) {
+					mu.Lock()
+					verified++
+					if err != nil {
+						sawInvalid = true
+					}
+					mu.Unlock()
+				}}
+				if len(it) == 3 {
+					wa.gate = gate
+					wa.onDone = nil
+				} else {
+					expect++
+				}
+				ntx, err := chain.NewTransaction(tx.Base, tx.Actions, wa)
+				if err != nil {
+					panic(err)
+				}
+				tx = ntx
+			}
+			j.txs = append(j.txs, tx)
+		}
+		return j
+	}
+	a, b := build(aTok, 0, true), build(bTok, 32, false)
+	pool := workers.NewParallel(w, 4)
+	start := func(j *c16Job) {
+		counts := map[uint8]int{}
+		for _, tx := range j.txs {
+			counts[tx.Auth.GetTypeID()]++
+		}
+		job, err := pool.NewJob(len(j.txs))
+		if err != nil {
+			t.Fatal(err)
+		}
+		j.job = job
+		j.bv = chain.NewAuthBatch(logging.NoLog{}, auth.DefaultEngines(), job, counts)
+	}
+	submit := func(j *c16Job) {
+		for _, tx := range j.txs {
+			j.bv.Add(tx.UnsignedBytes(), tx.Auth)
+		}
+		go j.bv.Done(nil)
+	}
+	// block A: Execute starts the job ... and returns early; the job keeps running
+	start(a)
+	submit(a)
+	deadline := time.Now().Add(2 * time.Second)
+	for time.Now().Before(deadline) {
+		mu.Lock()
+		settled := verified >= expect || sawInvalid
+		mu.Unlock()
+		if settled {
+			break
+		}
+		time.Sleep(200 * time.Microsecond)
+	}
+	time.Sleep(5 * time.Millisecond)
+	// block B's job is created while A's is still running
+	start(b)
+	var ra, rb string
+	if mode == "b-before-release" {
+		submit(b)
+		close(gate)
+		ra = c16WaitJob(a.job, 10*time.Second)
+		rb = c16WaitJob(b.job, 10*time.Second)
+	} else {
+		close(gate)
+		ra = c16WaitJob(a.job, 10*time.Second)
+		submit(b)
+		rb = c16WaitJob(b.job, 10*time.Second)
+	}
+	if ra != "hang" && rb != "hang" {
+		go pool.Stop()
+	}
+	out := fmt.Sprintf("A=%s B=%s", ra, rb)
+	r.Emit(l, out)
+	for _, x := range []struct {
+		name string
+		got  string
+		want bool
+	}{{"A", ra, a.want}, {"B", rb, b.want}} {
+		switch {
+		case x.got == "hang":
+			r.Violation("sig-job-hang", "overlapping jobs: job %s never completed (%s)", x.name, l)
+		case (x.got == "ok") != x.want && a.want != b.want:
+			r.Violation("job-verdict-leaks-across-jobs", "job %s reported %s but its own auths verify one-by-one: %v (the other job on the pool: A=%v B=%v) %s", x.name, x.got, x.want, a.want, b.want, l)
+		case (x.got == "ok") != x.want:
+			r.Violation("batch-ne-individual", "overlapping jobs: job %s reported %s, one-by-one all-valid=%v (%s)", x.name, x.got, x.want, l)
+		}
+	}
+	r.Count("overlap:" + mode)
+	r.Count(fmt.Sprintf("workers:%d", w))
+	r.Distinct(strings.Join(f[1:], " "))
+	return ""
 }
 
 type c16Signer struct {
@@ -177,6 +370,10 @@ func TestVerifC16(t *testing.T) {
 				}
 			}
 			r.Emit(l, fmt.Sprintf("minbatch=%d batched=%s ids=%d,%d,%d", ed25519.MinBatchSize, strings.Join(batched, ","), auth.ED25519ID, auth.SECP256R1ID, auth.BLSID))
+		case len(f) >= 1 && f[0] == "overlap":
+			if out := c16Overlap(r, t, signer, l, f); out != "" {
+				r.Emit(l, out)
+			}
 		case len(f) >= 2 && f[0] == "block" && strings.HasPrefix(f[1], "w="):
 			w, err := strconv.Atoi(f[1][2:])
 			ok := err == nil && w >= 1 && w <= 64
@@ -288,7 +485,15 @@ func c16Line(w int, items []string) string {
 }
 
 func c16Generate(r *verifh.Run) []string {
-	out := []string{"facts", "block w=1", "block w=3 s1", "block w=2 b0", "block w=4 e2"}
+	out := []string{"facts", "block w=1", "block w=3 s1", "block w=2 b0", "block w=4 e2",
+		// overlapping jobs on one pool: a failure must neither poison the next job nor be wiped by it
+		"overlap w=2 b-before-release A s1 s0g B e1 s1",
+		"overlap w=2 b-after-a A s1 s0g B s1 b1",
+		"overlap w=2 b-before-release A s0 s1g B s1",
+		"overlap w=3 b-after-a A b0 s1 s1g B",
+		"overlap w=1 b-before-release A s1g B s0",
+		"overlap w=4 b-before-release A e1 e1 e1 e1 s1 b2g B e1 e1 e1 e1 e1",
+	}
 	rep := func(tok string, n int) []string {
 		s := make([]string, n)
 		for i := range s {
@@ -316,6 +521,36 @@ func c16Generate(r *verifh.Run) []string {
 				out = append(out, c16Line(w, it))
 			}
 		}
+	}
+	for i := 0; i < r.N(140, 3000); i++ {
+		w := 1 + r.RNG.Intn(4)
+		if r.RNG.Chance(20) {
+			w = 1 + r.RNG.Intn(16)
+		}
+		mode := []string{"b-before-release", "b-after-a"}[r.RNG.Intn(2)]
+		pick := func(set string) string { return string(set[r.RNG.Intn(len(set))]) }
+		var a, b []string
+		na, nb := r.RNG.Intn(5), r.RNG.Intn(6)
+		for j := 0; j < na; j++ {
+			a = append(a, pick("ssbe")+"1")
+		}
+		if na > 0 && r.RNG.Chance(45) {
+			p := r.RNG.Intn(na)
+			a[p] = a[p][:1] + pick("02")
+		}
+		gk := "1"
+		if r.RNG.Chance(50) {
+			gk = pick("02")
+		}
+		a = append(a, pick("ssb")+gk+"g")
+		for j := 0; j < nb; j++ {
+			b = append(b, pick("essb")+"1")
+		}
+		if nb > 0 && r.RNG.Chance(20) {
+			p := r.RNG.Intn(nb)
+			b[p] = b[p][:1] + pick("02")
+		}
+		out = append(out, strings.TrimSpace(fmt.Sprintf("overlap w=%d %s A %s B %s", w, mode, strings.Join(a, " "), strings.Join(b, " "))))
 	}
 	nrand := r.N(500, 12000)
 	for i := 0; i < nrand; i++ {
